@@ -1,6 +1,6 @@
 (* C02 - No state change without a valid signature by the revealed key. *)
 From Coq Require Import ZArith Bool List String.
-From Sidetree Require Import Json.Json Sidetree.Protocol Sidetree.Applier.
+From Sidetree Require Import Json.Json Sidetree.Protocol Sidetree.Composer Sidetree.Hashing Sidetree.Parser Sidetree.Applier Sidetree.Resolve Sidetree.AuthBytes.
 Import ListNotations.
 
 (* Every accepted operation passed: batch parse (which contains reveal = multihash(JCS(key)),
@@ -39,6 +39,49 @@ Theorem C02_unauthorised_changes_nothing : forall cfg compose a rm,
   step cfg compose rm a = rm.
 Proof. exact unauthorised_changes_nothing. Qed.
 Print Assumptions C02_unauthorised_changes_nothing.
+
+(* The same on the request bytes (the view being the one the parser mirror derives from them): an
+   update / recover / deactivate that changes the state carries signed data that parses under
+   the protocol's rules, whose key hashes to the request's reveal value, and was verified under
+   that key (the primitive verdict is the oracle sig_ok); an update's signed delta hash is the
+   hash of its valid delta; the commitments installed are the ones in the signed data / delta. *)
+Theorem C02_update_bytes_authorised : forall cfg u n bytes sig_ok t num ver canon equiv rm rm',
+  apply_bytes cfg u n TUpdate bytes sig_ok t num ver canon equiv rm = Some rm' ->
+  sig_ok = true /\
+  exists m p su,
+    request_object bytes = Some m /\
+    parse_update cfg u n always2 m true = Some p /\
+    parse_signed_update cfg (p_signed p) = Some su /\
+    key_matches_reveal (su_key su) (p_reveal p) = true /\
+    valid_mh (img_delta_opt (p_delta p)) (su_delta_hash su) = true /\
+    validate_delta cfg u n (p_delta p) = true /\
+    rm_update_c rm' = delta_commitment (p_delta p).
+Proof. exact update_bytes_authorised. Qed.
+Print Assumptions C02_update_bytes_authorised.
+
+Theorem C02_recover_bytes_authorised : forall cfg u n bytes sig_ok t num ver canon equiv rm rm',
+  apply_bytes cfg u n TRecover bytes sig_ok t num ver canon equiv rm = Some rm' ->
+  sig_ok = true /\
+  exists m p sr,
+    request_object bytes = Some m /\
+    parse_recover cfg u n always always2 m true = Some p /\
+    parse_signed_recover cfg (p_signed p) = Some sr /\
+    key_matches_reveal (sr_key sr) (p_reveal p) = true /\
+    rm_recovery_c rm' = sr_recovery_c sr.
+Proof. exact recover_bytes_authorised. Qed.
+Print Assumptions C02_recover_bytes_authorised.
+
+Theorem C02_deactivate_bytes_authorised : forall cfg u n bytes sig_ok t num ver canon equiv rm rm',
+  apply_bytes cfg u n TDeactivate bytes sig_ok t num ver canon equiv rm = Some rm' ->
+  sig_ok = true /\
+  exists m p sx,
+    request_object bytes = Some m /\
+    parse_deactivate cfg always2 m true = Some p /\
+    parse_signed_deactivate cfg (p_signed p) = Some sx /\
+    key_matches_reveal (sx_key sx) (p_reveal p) = true /\
+    sx_suffix sx = p_suffix p /\ rm_deactivated rm' = true.
+Proof. exact deactivate_bytes_authorised. Qed.
+Print Assumptions C02_deactivate_bytes_authorised.
 
 Example C02_nonvacuous :
   exists a rm rm', a_type a = TUpdate /\
